@@ -159,7 +159,7 @@ def _chk_bh(args, q, old):
         return "BH-adjusted %r, expected %r for p=%r" % (q[:8].tolist(), exp[:8].tolist(), p[:8].tolist())
 
 
-contract("cnvlib/bintest.py::p_adjust_bh", params=dict(p=VecT(Real)), bounded=True, gen=_gen_p,
+contract("cnvlib/bintest.py::p_adjust_bh#rt", params=dict(p=VecT(Real)), bounded=True, gen=_gen_p,
          call=lambda fn, a: fn(a["p"].copy()), props=("C17",), checks=[("step_up_definition", _chk_bh)],
          ghost=dict(nmax=60), notes="the O(n^2) oracle limits thorough vectors to what the time budget allows")
 
@@ -220,3 +220,35 @@ def _chk_bintest(args, res, old):
 
 contract("cnvlib/bintest.py::do_bintest", params=dict(cnarr=ObjT("CopyNumArray")), bounded=True, gen=_gen_bintest,
          call=_call_bintest, props=("C17",), checks=[("exactly_the_bins_below_alpha", _chk_bintest)])
+
+
+# ----------------------------------------------------------------------------- deductive: z-test p-values
+from .c_call import CHROM, GENE      # noqa: E402
+
+opaque_fun("BH")
+
+contract("cnvlib/bintest.py::p_adjust_bh", params=dict(p=VecT(Real)), returns=FunResT("BH", "p"), trusted=True,
+         requires=[], ensures=[], props=(), domain="skip",
+         notes="at call sites p_adjust_bh is the opaque vector function BH; its step-up definition is checked by the "
+               "bounded contract p_adjust_bh#rt")
+
+_BINS_W = ObjT("CopyNumArray", data=TabT(index="range", chromosome=CHROM, start=Int, end=Int, gene=GENE, log2=Real, weight=Real),
+               meta=DictT())
+
+contract(
+    "cnvlib/bintest.py::z_prob",
+    params=dict(cnarr=_BINS_W),
+    returns=VecT(Real),
+    requires=["forall(0, len(cnarr.data), lambda k: cnarr.data.weight[k] < 1)"],
+    ensures=[
+        # BH is applied to exactly the two-sided normal tail probabilities of log2 / sqrt(1 - weight), in bin order
+        ("bh_of_two_sided_tails", "result == BH(Vec(len(cnarr.data), lambda k: 2 * normcdf(-abs(cnarr.data.log2[k] / "
+                                  "sqrt(1 - cnarr.data.weight[k])))))"),
+    ],
+    props=("C17",), domain="skip",
+    canaries=[("one_sided", "p = 2.0 * norm.cdf(-np.abs(z))", "p = norm.cdf(-np.abs(z))"),
+              ("variance_not_sd", "sd = np.sqrt(1 - cnarr[\"weight\"])", "sd = 1 - cnarr[\"weight\"]"),
+              ("no_abs", "norm.cdf(-np.abs(z))", "norm.cdf(-z)")],
+    notes="p_adjust_bh is applied as an opaque function BH of the whole p-vector (its step-up definition is the bounded "
+          "contract's business); norm.cdf and sqrt are abstract symbols",
+)
